@@ -1,1 +1,4 @@
 pub mod c07;
+pub mod c11;
+pub mod c12;
+pub mod c15;
